@@ -88,6 +88,50 @@ var advanceMenu = []time.Duration{time.Second, time.Minute, 3 * time.Minute, 5 *
 	10 * time.Minute, 11 * time.Minute, 31 * time.Minute}
 var expireOffsetMenu = []time.Duration{0, time.Minute, 10 * time.Minute, -5 * time.Minute, 24 * time.Hour}
 
+func genTx(rt *rapid.T) TxSpec {
+	var ts TxSpec
+	nin := 1
+	switch w := rapid.IntRange(0, 9).Draw(rt, "nin"); {
+	case w >= 9:
+		nin = 4
+	case w >= 8:
+		nin = 3
+	case w >= 5:
+		nin = 2
+	}
+	for j := 0; j < nin; j++ {
+		// Tx is relative here: 0 = a confirmed-world output, k = the k-th transaction
+		// before this one (made absolute below).
+		back := 0
+		switch src := rapid.IntRange(0, 9).Draw(rt, "src"); {
+		case src < 2:
+		case src < 6:
+			back = 1
+		default:
+			back = rapid.IntRange(1, 8).Draw(rt, "back")
+		}
+		ts.Ins = append(ts.Ins, InRef{Tx: back, Out: rapid.IntRange(0, 3).Draw(rt, "out")})
+	}
+	nout := rapid.IntRange(1, 3).Draw(rt, "nout")
+	for j := 0; j < nout; j++ {
+		k := kindOrdinary
+		switch w := rapid.IntRange(0, 9).Draw(rt, "okind"); {
+		case w >= 9:
+			k = kindVote
+		case w >= 7:
+			k = kindRetire
+		}
+		ts.Outs = append(ts.Outs, k)
+	}
+	switch w := rapid.IntRange(0, 24).Draw(rt, "dust"); {
+	case w == 24:
+		ts.Dust = dustZeroOut
+	case w == 23:
+		ts.Dust = dustNoBTM
+	}
+	return ts
+}
+
 func genC22(rt *rapid.T) any {
 	p := &C22Plan{}
 	p.NG = rapid.IntRange(1, 4).Draw(rt, "ng")
@@ -99,61 +143,35 @@ func genC22(rt *rapid.T) any {
 		p.G0 = append(p.G0, st)
 		p.GCoinbase = append(p.GCoinbase, rapid.IntRange(0, 3).Draw(rt, "gcb") == 3)
 	}
-	n := rapid.IntRange(2, 9).Draw(rt, "ntx")
-	for i := 0; i < n; i++ {
-		var ts TxSpec
-		nin := 1
-		switch w := rapid.IntRange(0, 9).Draw(rt, "nin"); {
-		case w >= 9:
-			nin = 4
-		case w >= 8:
-			nin = 3
-		case w >= 5:
-			nin = 2
-		}
-		for j := 0; j < nin; j++ {
-			src := rapid.IntRange(0, 9).Draw(rt, "src")
-			ref := InRef{Tx: -1, Out: rapid.IntRange(0, 3).Draw(rt, "out")}
-			switch {
-			case i == 0 || src < 3:
-			case src < 7:
-				ref.Tx = i - 1
-			default:
-				ref.Tx = rapid.IntRange(0, i-1).Draw(rt, "parent")
+	// (the lower bounds are drawn so that long plans are common and still shrink element-wise)
+	minTx := rapid.IntRange(2, 7).Draw(rt, "mintx")
+	p.Txs = rapid.SliceOfN(rapid.Custom(genTx), minTx, 9).Draw(rt, "txs")
+	for i := range p.Txs {
+		for j := range p.Txs[i].Ins {
+			// relative -> absolute; anything before the first transaction is a confirmed-world output
+			back := p.Txs[i].Ins[j].Tx
+			if back == 0 || i-back < 0 {
+				p.Txs[i].Ins[j].Tx = -1
+			} else {
+				p.Txs[i].Ins[j].Tx = i - back
 			}
-			ts.Ins = append(ts.Ins, ref)
 		}
-		nout := rapid.IntRange(1, 3).Draw(rt, "nout")
-		for j := 0; j < nout; j++ {
-			k := kindOrdinary
-			switch w := rapid.IntRange(0, 9).Draw(rt, "okind"); {
-			case w >= 9:
-				k = kindVote
-			case w >= 7:
-				k = kindRetire
-			}
-			ts.Outs = append(ts.Outs, k)
-		}
-		switch w := rapid.IntRange(0, 24).Draw(rt, "dust"); {
-		case w == 24:
-			ts.Dust = dustZeroOut
-		case w == 23:
-			ts.Dust = dustNoBTM
-		}
-		p.Txs = append(p.Txs, ts)
 	}
-	if rapid.IntRange(0, 4).Draw(rt, "limpool") >= 3 {
+	n := len(p.Txs)
+	if rapid.IntRange(0, 3).Draw(rt, "limpool") >= 3 {
 		p.MaxPool = rapid.IntRange(1, 5).Draw(rt, "maxpool")
 	}
-	if rapid.IntRange(0, 4).Draw(rt, "limorph") >= 3 {
+	if rapid.IntRange(0, 3).Draw(rt, "limorph") >= 3 {
 		p.MaxOrphan = rapid.IntRange(1, 4).Draw(rt, "maxorphan")
 	}
-	nops := rapid.IntRange(1, 40).Draw(rt, "nops")
-	for i := 0; i < nops; i++ {
-		op := Op{A: rapid.IntRange(0, 8).Draw(rt, "a"), B: rapid.IntRange(0, 7).Draw(rt, "b")}
+	minOps := rapid.IntRange(1, 30).Draw(rt, "minops")
+	p.Ops = rapid.SliceOfN(rapid.Custom(func(rt *rapid.T) Op {
+		op := Op{}
 		switch w := rapid.IntRange(0, 19).Draw(rt, "kind"); {
-		case w <= 10:
+		case w <= 3:
 			op.K = "submit"
+		case w <= 10:
+			op.K = "submitnew"
 		case w <= 12:
 			op.K = "remove"
 		case w <= 14:
@@ -167,8 +185,19 @@ func genC22(rt *rapid.T) any {
 		default:
 			op.K = "expire"
 		}
-		p.Ops = append(p.Ops, op)
-	}
+		switch op.K {
+		case "gset":
+			op.A = rapid.IntRange(0, 3).Draw(rt, "g")
+		case "advance", "expire":
+			op.B = rapid.IntRange(0, 7).Draw(rt, "b")
+		case "unconfirm":
+			op.A = rapid.IntRange(0, n-1).Draw(rt, "a")
+			op.B = rapid.IntRange(0, 1).Draw(rt, "b")
+		default:
+			op.A = rapid.IntRange(0, n-1).Draw(rt, "a")
+		}
+		return op
+	}), minOps, 40).Draw(rt, "ops")
 	return p
 }
 
@@ -190,6 +219,7 @@ type txInfo struct {
 	ins    []outKey
 	outs   []int
 	outIDs []bc.Hash
+	amts   []uint64
 	dust   int
 }
 
@@ -221,7 +251,7 @@ func outProgram(i, pos, kind int) []byte {
 	return []byte{0x51, byte(i), byte(pos)}
 }
 
-func outAmount(pos int) uint64 { return uint64(10 + pos) }
+func outAmount(i, pos int) uint64 { return uint64(10 + pos + 16*i) }
 
 func buildWorld(p *C22Plan) *world {
 	w := &world{byTxID: map[bc.Hash]int{}, byOut: map[bc.Hash]outKey{}}
@@ -267,7 +297,7 @@ func buildWorld(p *C22Plan) *world {
 				if !ok {
 					harnessFail("parent output %v is not an ordinary output entry", key)
 				}
-				inputs = append(inputs, types.NewSpendInput(nil, *e.Source.Ref, *consensus.BTMAssetID, outAmount(key.pos),
+				inputs = append(inputs, types.NewSpendInput(nil, *e.Source.Ref, *consensus.BTMAssetID, parent.amts[key.pos],
 					uint64(key.pos), outProgram(key.tx, key.pos, kindOrdinary), nil))
 			}
 		}
@@ -289,7 +319,7 @@ func buildWorld(p *C22Plan) *world {
 			outs = []int{kindOrdinary}
 		}
 		for pos, k := range outs {
-			amt := outAmount(pos)
+			amt := outAmount(i, pos)
 			if ts.Dust == dustZeroOut && pos == len(outs)-1 {
 				amt = 0
 			}
@@ -303,12 +333,18 @@ func buildWorld(p *C22Plan) *world {
 				outputs = append(outputs, types.NewOriginalTxOutput(*consensus.BTMAssetID, amt, outProgram(i, pos, k), nil))
 			}
 			ti.outs = append(ti.outs, k)
+			ti.amts = append(ti.amts, amt)
 		}
-		ti.tx = types.NewTx(types.TxData{Version: 1, SerializedSize: uint64(100 + i), Inputs: inputs, Outputs: outputs})
+		ti.tx = types.NewTx(types.TxData{Version: 1, SerializedSize: uint64(100 + i), TimeRange: uint64(i + 1), Inputs: inputs, Outputs: outputs})
 		for pos, id := range ti.tx.ResultIds {
 			ti.outIDs = append(ti.outIDs, *id)
 			if prev, dup := w.byOut[*id]; dup {
-				harnessFail("output id collision %v / t%d.%d", prev, i, pos)
+				// Retirement entries do not commit to a program: two transactions with
+				// the same inputs can share a retirement id. Such ids are in no index.
+				if ti.outs[pos] != kindRetire || w.kind(prev) != kindRetire {
+					harnessFail("output id collision %v / t%d.%d", prev, i, pos)
+				}
+				continue
 			}
 			w.byOut[*id] = outKey{i, pos}
 		}
@@ -553,6 +589,7 @@ type sim struct {
 	promos    int
 	multiOrph int
 	gcb       []bool
+	seen      map[int]bool
 }
 
 // syncStore rebuilds what the stub store serves from the reference ledger.
@@ -797,6 +834,7 @@ func (s *sim) submit(step string, opk string, i int) bool {
 	r, m, w := s.r, s.m, s.w
 	ti := w.txs[i]
 	id := ti.tx.ID
+	s.seen[i] = true
 	if m.pooled[i] {
 		if !s.tp.HaveTransaction(&id) {
 			r.Violate("pool-views", opk, "%s: HaveTransaction(t%d) is false for a pooled transaction", step, i)
@@ -1173,7 +1211,7 @@ func runC22(p *C22Plan, r *simkit.Run) {
 
 	st := &stubStore{}
 	s := &sim{r: r, w: w, m: m, st: st, ttl: protocol.VerifOrphanTTL(), maxPool: maxPool, maxOrphan: maxOrphan,
-		start: time.Now(), kinds: map[string]bool{}, gcb: p.GCoinbase}
+		start: time.Now(), kinds: map[string]bool{}, gcb: p.GCoinbase, seen: map[int]bool{}}
 	s.syncStore()
 	s.tp = protocol.NewTxPool(st, event.NewDispatcher())
 
@@ -1189,9 +1227,26 @@ func runC22(p *C22Plan, r *simkit.Run) {
 		s.kinds[op.K] = true
 		r.FP(op.K)
 		ok := true
+		if (op.K == "submit" || op.K == "submitnew" || op.K == "remove" || op.K == "confirm" || op.K == "unconfirm") && (op.A < 0 || op.A >= len(w.txs)) {
+			r.Tracef("%s %s t%d: no such transaction, skipped", step, op.K, op.A)
+			continue
+		}
 		switch op.K {
 		case "submit":
 			ok = s.submit(step, "submit", mod(op.A, len(w.txs)))
+		case "submitnew":
+			// the A-th (modulo) transaction never handed to the pool so far; any transaction when all were
+			var fresh []int
+			for i := range w.txs {
+				if !s.seen[i] {
+					fresh = append(fresh, i)
+				}
+			}
+			i := mod(op.A, len(w.txs))
+			if len(fresh) > 0 {
+				i = fresh[mod(op.A, len(fresh))]
+			}
+			ok = s.submit(step, "submit", i)
 		case "remove":
 			ok = s.remove(step, "remove", mod(op.A, len(w.txs)))
 		case "confirm":
@@ -1243,7 +1298,7 @@ func SpecC22() simkit.Spec {
 		NewPlan: func() any { return &C22Plan{} },
 		Exec:    execC22,
 		Rule: "2-9 generated transactions forming a DAG (1-4 inputs each, drawn from 1-4 confirmed-world outputs and ordinary outputs of earlier transactions, so chains, diamonds, 2-4-parent orphans and conflicting siblings arise; 1-3 outputs each: ordinary, retirement, vote; a few dust transactions); " +
-			"1-40 ops: submit (any order; the caller protocol of Chain.ValidateTx: a pooled transaction is not processed again), remove, confirm (block with the transaction and its unconfirmed ancestors: store updated, then RemoveTransaction each), unconfirm (block disconnect, detached transactions handed back), external store change, clock advance 1s-31min, ExpireOrphan(now+offset); pool limit 1-5 and orphan limit 1-4 in 40% of runs each; " +
+			"1-40 ops: submit (any transaction, or one never submitted before; any order; the caller protocol of Chain.ValidateTx: a pooled transaction is not processed again), remove, confirm (block with the transaction and its unconfirmed ancestors: store updated, then RemoveTransaction each), unconfirm (block disconnect, detached transactions handed back), external store change, clock advance 1s-31min, ExpireOrphan(now+offset); pool limit 1-5 and orphan limit 1-4 in 25% of runs each; " +
 			"non-trivial = at least one orphan promotion or one orphan waiting for >=2 outputs, and >=3 op kinds; distinct = hash of the op sequence and every traced outcome",
 		Components: map[string]string{
 			"protocol.TxPool":    "real (NewTxPool incl. its orphan-expiry goroutine, inside a synctest bubble)",
